@@ -175,4 +175,91 @@ theorem corner_miter (c σ τ x y : K)
     linear_combination (y) * hτ + x * hst
   linarith
 
+/-- `c`, `σ` as rational functions of `τ`: `c = (1 − τ²)/(1 + τ²)`, `σ = 2τ/(1 + τ²)` -/
+theorem cs_of_tau (c σ τ : K) (hτ : σ = τ * (1 + c)) (hcs : c * c + σ * σ = 1) (hc : 0 < 1 + c) :
+    c = (1 - τ * τ) / (1 + τ * τ) ∧ σ = 2 * τ / (1 + τ * τ) := by
+  have hD : 0 < 1 + τ * τ := by nlinarith [mul_self_nonneg τ]
+  have hDne : 1 + τ * τ ≠ 0 := ne_of_gt hD
+  have h2 : (1 + c) * (1 + τ * τ) = 2 := by
+    have h3 : (1 + c) * ((1 + c) * (1 + τ * τ) - 2) = 0 := by
+      rw [hτ] at hcs; linear_combination hcs
+    rcases mul_eq_zero.mp h3 with h | h
+    · exact absurd h (ne_of_gt hc)
+    · linarith
+  have hc' : c = (1 - τ * τ) / (1 + τ * τ) := by
+    rw [eq_div_iff hDne]; linear_combination h2
+  refine ⟨hc', ?_⟩
+  rw [hτ, eq_div_iff hDne]; linear_combination τ * h2
+
+/-- **clipped `MiterClip` join** (and, for `lam = 0`, the bevel-shaped join): the outer corners of the two
+trapezoids are shifted by `lam ∈ [0, τ)` half widths beyond the join (`(lam, −1)` on the incoming edge,
+`(σ − lam·c, −c − lam·σ)` on the outgoing one).  A point of the rectangle beyond the trapezoid's end line
+(from the inner miter point `(−τ, 1)` to `(lam, −1)`) lies in the join triangle or beyond the start line of the
+next trapezoid, inside its band. -/
+theorem corner_clip (j e1 e2 : P K) (c σ τ lam x y : K)
+    (hτ : σ = τ * (1 + c)) (hcs : c * c + σ * σ = 1) (hc : 0 < 1 + c) (hσ : 0 ≤ σ)
+    (hl0 : 0 ≤ lam) (hl1 : lam < τ)
+    (hy : -1 ≤ y) (hy1 : y ≤ 1) (hx : -((τ * (1 + y) - lam * (1 - y)) / 2) ≤ x) (hx0 : x ≤ 0) :
+    InTri (aff j e1 e2 x y) (aff j e1 e2 lam (-1), aff j e1 e2 (-τ) 1, aff j e1 e2 (σ - lam * c) (-c - lam * σ))
+    ∨ (-1 ≤ c * y - σ * x ∧ c * y - σ * x ≤ 1
+        ∧ (τ * (1 + (c * y - σ * x)) - lam * (1 - (c * y - σ * x))) / 2 ≤ c * x + σ * y
+        ∧ c * x + σ * y ≤ 1 + τ) := by
+  have hτ0 : 0 < τ := lt_of_le_of_lt hl0 hl1
+  have hx2 : -τ * (1 + y) / 2 ≤ x := by
+    have : 0 ≤ lam * (1 - y) := mul_nonneg hl0 (by linarith)
+    linarith
+  obtain ⟨b1, b2, b3⟩ := corner_band c σ τ x y hτ hcs hc hσ hy hy1 hx2 hx0
+  obtain ⟨hc', hσ'⟩ := cs_of_tau c σ τ hτ hcs hc
+  have hD : 0 < 1 + τ * τ := by nlinarith [mul_self_nonneg τ]
+  have hDne : 1 + τ * τ ≠ 0 := ne_of_gt hD
+  have hP : 0 < τ - lam := by linarith
+  have hQ : 0 < 2 + τ * τ + lam * τ := by nlinarith [mul_self_nonneg τ, mul_nonneg hl0 (le_of_lt hτ0)]
+  have hW : 0 < (τ - lam) * (2 + τ * τ + lam * τ) := mul_pos hP hQ
+  have hWne : (τ - lam) * (2 + τ * τ + lam * τ) ≠ 0 := ne_of_gt hW
+  have hQne : 2 + τ * τ + lam * τ ≠ 0 := ne_of_gt hQ
+  -- barycentric coordinates with respect to (outer end, inner miter point, outer start)
+  obtain ⟨ν, hν⟩ : ∃ ν : K, ν = (2 * x + (τ + lam) * y + (τ - lam)) * (1 + τ * τ) / (2 * ((τ - lam) * (2 + τ * τ + lam * τ))) :=
+    ⟨_, rfl⟩
+  obtain ⟨l, hl⟩ : ∃ l : K, l = -(x * (2 + 2 * lam * τ) + y * (3 * τ + τ * τ * τ - lam + lam * τ * τ)
+      - (τ - lam) * (1 + τ * τ)) / (2 * ((τ - lam) * (2 + τ * τ + lam * τ))) := ⟨_, rfl⟩
+  obtain ⟨μ, hμ⟩ : ∃ μ : K, μ = (y - τ * x + 1 + lam * τ) / (2 + τ * τ + lam * τ) := ⟨_, rfl⟩
+  have hsum : l + μ + ν = 1 := by rw [hl, hμ, hν]; field_simp; ring
+  have hν0 : 0 ≤ ν := by
+    rw [hν]
+    apply div_nonneg _ (by linarith)
+    apply mul_nonneg _ (le_of_lt hD)
+    linarith
+  have hμ0 : 0 ≤ μ := by
+    rw [hμ]
+    apply div_nonneg _ (le_of_lt hQ)
+    have : 0 ≤ τ * (-x) := mul_nonneg (le_of_lt hτ0) (by linarith)
+    have : 0 ≤ lam * τ := mul_nonneg hl0 (le_of_lt hτ0)
+    linarith
+  -- the line functional of the next trapezoid's start line is `-l` times a positive number
+  have hS : (c * x + σ * y - (τ * (1 + (c * y - σ * x)) - lam * (1 - (c * y - σ * x))) / 2) * (1 + τ * τ)
+      = -l * ((τ - lam) * (2 + τ * τ + lam * τ)) := by
+    rw [hl, hc', hσ']; field_simp; ring
+  by_cases hl0' : 0 ≤ l
+  · left
+    refine ⟨l, μ, ν, hl0', hμ0, hν0, hsum, ?_, ?_⟩
+    · have hxe : x = l * lam + μ * (-τ) + ν * (σ - lam * c) := by
+        rw [hl, hμ, hν, hc', hσ']; field_simp; ring
+      have hye : y = l * (-1) + μ * 1 + ν * (-c - lam * σ) := by
+        rw [hl, hμ, hν, hc', hσ']; field_simp; ring
+      simp only [aff, geom]
+      linear_combination e1.x * hxe + e2.x * hye - j.x * hsum
+    · have hxe : x = l * lam + μ * (-τ) + ν * (σ - lam * c) := by
+        rw [hl, hμ, hν, hc', hσ']; field_simp; ring
+      have hye : y = l * (-1) + μ * 1 + ν * (-c - lam * σ) := by
+        rw [hl, hμ, hν, hc', hσ']; field_simp; ring
+      simp only [aff, geom]
+      linear_combination e1.y * hxe + e2.y * hye - j.y * hsum
+  · right
+    refine ⟨b1, b2, ?_, b3⟩
+    have hneg : 0 < -l := by linarith [lt_of_not_ge hl0']
+    have : 0 < -l * ((τ - lam) * (2 + τ * τ + lam * τ)) := mul_pos hneg hW
+    rw [← hS] at this
+    have h5 := (mul_pos_iff_of_pos_right hD).mp this
+    linarith
+
 end Lyon.C06b
